@@ -154,3 +154,51 @@ the word arithmetic of each step. `MessageAdmission(self)` (the ticket) is `()`,
          "properties": ["C05"], "theorem": "C05.generated_terminate_kill_condition_eq_model"},
     ],
 })
+
+# ---- C14: worker choice of the push routers ------------------------------------------------
+AREAS.append({
+    "area": "Routing",
+    "properties": ["C14"],
+    "file": "ractor/src/factory/routing.rs",
+    "imports": ["RactorModel.Model.RustSem", "RactorModel.Model.Factory"],
+    "doc": """
+`worker_pool: &HashMap<WorkerId, WorkerProperties>` is the model's pool `List Factory.WP`
+(`contains_key` = `Factory.hasW`, `get` = `Factory.getW`, `iter()` = the list of `(wid, worker)`
+pairs in list order — a real `HashMap` iterates in an unspecified order); the observers of
+`WorkerProperties` (`is_available`, `has_pending_key`, `is_processing_key`) are the model's;
+`Job` is `Factory.Job` (only `key` is read), job keys are `Nat`. `DefaultHasher` is the last value
+fed (`Option Nat`), `finish()` the uninterpreted `sip`; the custom hasher is the uninterpreted `h`.
+`QueuerRouting`/`StickyQueuerRouting::choose_target_worker` are NOT translated (`while let` loops
+with index assignment are outside the subset).""",
+    "fn_params": "(sip : Option Nat → Nat) (h : Nat → Nat → Nat)",
+    "fn_args": "sip h",
+    "aliases": {"WorkerId": "usize"},
+    "types": {"Job": "Factory.Job", "WorkerProperties": "Factory.WP", "HashMap": "(List Factory.WP)", "TKey": "Nat",
+              "THasher": "Unit", "DefaultHasher": "(Option Nat)"},
+    "field_types": {"Job": {"key": "TKey"}},
+    "foreign_rust": "struct KeyPersistentRouting {}",
+    "source_types": [{"name": "RoundRobinRouting", "fields": ["last_worker"]},
+                     {"name": "CustomRouting", "fields": ["hasher"]}],
+    "calls": {"DefaultHasher::new": ("(none : Option Nat)", "DefaultHasher")},
+    "mutarg_methods": {"hash": "(some {0})"},
+    "methods": [
+        {"name": "finish", "on": "DefaultHasher", "lean": "sip {0}", "ty": "u64"},
+        {"name": "hash", "on": "THasher", "lean": "h {1} {2}", "ty": "usize"},
+        {"name": "contains_key", "on": "HashMap", "lean": "Factory.hasW {0} {1}", "ty": "bool"},
+        {"name": "get", "on": "HashMap", "lean": "Factory.getW {0} {1}", "ty": "Option<WorkerProperties>"},
+        {"name": "iter", "on": "HashMap", "lean": "List.map (fun p => (p.wid, p)) {0}", "ty": "Iter<(WorkerId, WorkerProperties)>"},
+        {"name": "is_available", "on": "WorkerProperties", "lean": "Factory.WP.isAvailable {0}", "ty": "bool"},
+        {"name": "has_pending_key", "on": "WorkerProperties", "lean": "Factory.WP.hasPendingKey {0} {1}", "ty": "bool"},
+        {"name": "is_processing_key", "on": "WorkerProperties", "lean": "Factory.WP.isProcessingKey {0} {1}", "ty": "bool"},
+    ],
+    "fns": [
+        {"container": None, "name": "hash_with_max", "file": "ractor/src/factory/hash.rs",
+         "theorem": "C14.generated_hash_with_max_eq_model"},
+        {"container": "Router for KeyPersistentRouting", "name": "choose_target_worker",
+         "theorem": "C14.generated_key_persistent_choice_eq_model"},
+        {"container": "Router for RoundRobinRouting", "name": "choose_target_worker",
+         "theorem": "C14.generated_round_robin_choice_eq_model"},
+        {"container": "Router for CustomRouting", "name": "choose_target_worker",
+         "theorem": "C14.generated_custom_choice_eq_model"},
+    ],
+})
